@@ -257,15 +257,19 @@ def r1_cbtf(ctx):
     inl, consts = _tables(ctx)
 
     def run(q_empty, mapping=False, miss=False):
-        S = Run(ctx, fn, inline=inl, consts=consts, run=False, handler_path=(lambda t: miss))
+        S = Run(ctx, fn, inline=inl, consts=consts, run=False)
         S.truth("isinstance(save, abc.MutableMapping)", mapping)
         if mapping:
             S.truth("save is None", False)          # a mapping is not None: `cache = save if isinstance(...) else None; if cache is not None`
+            # the regime is a fact about the cache, not about a statement: save['tf'] raises KeyError / is a value, `'tf' in save`, save.get('tf') follow
+            S.key("save", "'tf'", present=not miss)
+            if not miss:
+                S.truth("save['tf'] is None", False)
         _sign_len(S, "{n}", "locate.flippv(bset, m.shape[0])", "zero" if q_empty else "pos")
         S.sign("a.ndim - 1", "pos")
         S.sign("a.ndim - 2", "zero")
         S.sign("a.shape[1] - 1", "pos")
-        S.ev.run(fn.body)
+        S.go()
         return S
 
     S = run(False)
@@ -275,6 +279,10 @@ def r1_cbtf(ctx):
         ctx.error("cbtf: the returned namespace (fields frc, a, d, v, freq, f) was not lowered", fn, _r(ret))
         return
     A, D, V, FRC = (S.ev.deref(ret.fields[k]) for k in ("a", "d", "v", "frc"))
+    if S.buf(A) is None or S.buf(D) is None:
+        ctx.error("cbtf: the returned acceleration / displacement are not arrays filled row-wise by stores (boundary rows, interior rows): not lowered", ret.node or fn,
+                  {"a": _r(A, 200), "d": _r(D, 200)})
+        return
     Q = "locate.flippv(bset, m.shape[0])"
     OM = "(2 * math.pi * freq)"
     NZ = f"({OM} != 0.0)"
@@ -323,7 +331,8 @@ def r1_cbtf(ctx):
     ok = S.same(FRC, f"m[bset] @ __a + b[bset] @ (1j * ({OM} * __d)) + k[np.ix_(bset, bset)] @ __d[bset]", __a=A, __d=D)
     ctx.check(ok, "cbtf: boundary force = boundary rows of M a + B v + K d with v = i W d", ret.node or fn, None if ok else _r(FRC, 400))
     ok = eq(ret.fields["freq"], S.root("freq")) and eq(ret.fields["f"], S.root("freq"))
-    ctx.check(ok, "cbtf: the namespace returns the frequency vector under `freq` and `f`", ret.node or fn, nontrivial=False)
+    ctx.check(ok, "cbtf: the namespace returns the frequency vector under `freq` and `f`", ret.node or fn, None if ok else [_r(ret.fields["freq"], 80), _r(ret.fields["f"], 80)],
+              nontrivial=False)
     # ---- the fixed-base interior system has no rigid-body modes
     st = split_call(tf)
     qq = f"np.ix_({Q}, {Q})"
@@ -457,7 +466,7 @@ def r2_conversion(ctx):
     S = Run(ctx, fn, args=[X], inline=inl, consts=consts, run=False)
     for name in ("m2e", "e2m"):
         S.truth(F.fn("cmp:Eq", X, F.sym(repr(name))), False)
-    S.ev.run(fn.body)
+    S.go()
     r = S.ret()
     ok = isinstance(r, tuple) and len(r) == 2 and eq(r[0], F.fn("idx", X, F.const(0))) and eq(r[1], F.fn("idx", X, F.const(1)))
     ctx.check(ok, "_get_conv_factors: any other `conv` is taken as the (lengthconv, massconv) pair itself", fn, None if ok else _r(r), nontrivial=False)
@@ -466,7 +475,7 @@ def r2_conversion(ctx):
     for diag_first in (True, False):
         Sm = Run(ctx, mm, run=False)
         Sm.sign("np.ndim(a) - 1", "zero" if diag_first else "pos")
-        Sm.ev.run(mm.body)
+        Sm.go()
         r = Sm.ret()
         a_, b_ = Sm.root("a"), Sm.root("b")
         want = F.fn("attr:T", a_ * F.fn("attr:T", b_)) if diag_first else a_ * b_
@@ -480,11 +489,14 @@ def r2_conversion(ctx):
         S = Run(ctx, fn, args=[None, None, (L, mc), None], inline=inl, consts=consts, run=False)
         S.truth("drm", drm)
         _sign_len(S, "np.size(M, 1) - {n}", "b", "pos")
-        S.ev.run(fn.body)
+        S.go()
         runs[drm] = S
     S = runs[False]
     M = S.root("M")
     sc = _scaling(S, S.ret(), M)
+    if sc is None:
+        ctx.error("cbconvert (drm=False): the returned value was not recognised as M scaled by row / column diagonals", fn, _r(S.ret(), 300))
+        return
     ok = sc is not None and len(sc[0]) == 1 and len(sc[1]) == 1 and not sc[2]
     ctx.check(ok, "cbconvert (drm=False): the result is D M C - one diagonal on the rows, one on the columns", fn, None if ok else _r(S.ret(), 300))
     if not ok:
@@ -493,17 +505,23 @@ def r2_conversion(ctx):
     S1 = runs[True]
     sc1 = _scaling(S1, S1.ret(), S1.root("M"))
     ok = sc1 is not None and not sc1[0] and len(sc1[1]) == 1 and not sc1[2]
-    ctx.check(ok, "cbconvert (drm=True): the result is M C (columns only: a recovery matrix maps displacements)", fn, None if ok else _r(S1.ret(), 300))
+    if sc1 is None:
+        ctx.error("cbconvert (drm=True): the returned value was not recognised as M scaled by row / column diagonals", fn, _r(S1.ret(), 300))
+    else:
+        ctx.check(ok, "cbconvert (drm=True): the result is M C (columns only: a recovery matrix maps displacements)", fn, None if ok else _r(S1.ret(), 300))
     trn = "b[ytools.mkpattvec([0, 1, 2], len(b), 6).ravel()]"
     rot = "b[ytools.mkpattvec([0, 1, 2], len(b), 6).ravel() + 3]"
     qset = "locate.flippv(b, np.size(M, 1))"
     want = {("C", trn, "translations"): 1 / L, ("D", trn, "translations"): mc * L, ("D", rot, "rotations"): mc * L * L}
     arr = {"C": Cv, "D": Dv}
+    vocab = [_ixv(S, t) for t in (trn, rot, qset)]
+    vocab = [v for v in vocab if v is not None]
     for (nm, ixt, what), w in want.items():
         v = S.cell(arr[nm], ixt)
         ok = eq(v, w)
+        # a store under an index that is none of (boundary translations, boundary rotations, modal DOF) is not understood: exit 2, not a violation
         _chk(ctx, S, ok, f"cbconvert: {nm} (the {'column' if nm == 'C' else 'row'} diagonal) on the boundary {what} (DOF {'1-3' if what == 'translations' else '4-6'} of each boundary grid) = {w} "
-                         "(C converts displacements OUT->IN, D converts forces IN->OUT)", fn, None if ok else _r(v), arrays=[arr[nm]])
+                         "(C converts displacements OUT->IN, D converts forces IN->OUT)", fn, None if ok else _r(v), arrays=[arr[nm]], known=[(arr[nm], vocab)])
     crot = S.cell(Cv, rot)
     _chk(ctx, S, crot is None, "cbconvert: C leaves the boundary rotations alone (rotations are dimensionless)", fn, _r(crot), arrays=[Cv], nontrivial=False)
     cq, dq = S.cell(Cv, qset), S.cell(Dv, qset)
@@ -512,7 +530,7 @@ def r2_conversion(ctx):
          None if ok else {"C[q]": _r(cq), "D[q]": _r(dq)}, arrays=[Cv, Dv])
     inv = {"L": 1 / L, "mc": 1 / mc}
     ok = all((w * w.subs(inv)).equals(1) for w in want.values()) and is_rat(cq) and (cq * cq.subs(inv) * cq * cq.subs(inv)).equals(1)
-    ctx.check(ok, "cbconvert: converting with the reciprocal factors undoes the conversion on translations, rotations and modal DOF", fn)
+    ctx.check(ok, "cbconvert: converting with the reciprocal factors undoes the conversion on translations, rotations and modal DOF", fn, None if ok else {"C[q]": _r(cq)})
     for nm in ("C", "D"):
         b = S.buf(arr[nm])
         sized = b is not None and b.shape is not None and len(b.shape) == 1 and S.same(b.shape[0], "np.size(M, 1)")
@@ -530,7 +548,7 @@ def r2_conversion(ctx):
     LC, MC = F.sym("LC"), F.sym("MC")
     S = Run(ctx, fn, args=[None, None, (LC, MC)], inline=inl, consts=consts, run=False)
     S.sign("len(ref) - 3", "zero")
-    S.ev.run(fn.body)
+    S.go()
     iloc = S.root("uset.iloc")
     cl = S.cells(iloc)
     DOF = S.root("uset.index.get_level_values('dof')")
@@ -583,8 +601,8 @@ def r2_conversion(ctx):
     r = S.ret()
     ok = isinstance(r, tuple) and len(r) == 2 and eq(r[1], S.root("ref") * LC)
     ctx.check(ok, "uset_convert: a reference location (three coordinates) is scaled by the same length factor", fn, None if ok else _r(r))
-    ok = good and bool(cl)
-    ctx.check(ok, "uset_convert: uses the length factor (first element) of the requested conversion", fn, None, nontrivial=False)
+    if known and cl:
+        ctx.check(good, "uset_convert: uses the length factor (first element) of the requested conversion", fn, None, nontrivial=False)
     # ---- sibling witness: location and origin of a grid are subtracted from each other
     rb = cs.func(ctx, N2P, "rbgeom_uset")
     # every `X.any()` branch (q-set grids, cylindrical, spherical output systems) is entered
@@ -636,7 +654,7 @@ def r3_reorder(ctx):
                 S.truth("drm", drm)
                 S.truth("last", last)
                 _sign_len(S, "np.size(M, 1) - {n}", "b", "zero" if lq0 else "pos")
-                S.ev.run(fn.body)
+                S.go()
                 r = S.ret()
                 if not is_rat(r):
                     ctx.error(f"cbreorder (drm={drm}, last={last}, q empty={lq0}): returned value not lowered", fn, _r(r))
@@ -645,10 +663,20 @@ def r3_reorder(ctx):
                 pv = "b" if lq0 else (f"np.hstack(({q}, b))" if last else f"np.hstack((b, {q}))")
                 want = f"M[:, {pv}]" if drm else f"M[np.ix_({pv}, {pv})]"
                 ok = S.same(r, want)
+                ur = unfn(r)
+                bv, qv = S.root("b"), S.root(q)
+                vocab = [bv, qv, S.root(f"np.hstack((b, {q}))"), S.root(f"np.hstack(({q}, b))")]
+                if not ok and not (ur is not None and ur[0] == "idx" and eq(ur[1][0], S.root("M")) and _recognised(ur[1][1], vocab)):
+                    # not a selection of M by the boundary set / its complement in some arrangement: nothing can be said (exit 2)
+                    ctx.error(f"cbreorder (drm={drm}, last={last}, q empty={lq0}): the returned value is not M indexed by the boundary set and its complement", fn, _r(r, 300))
+                    continue
                 n += 1
                 ctx.check(ok, f"cbreorder (drm={drm}, last={last}, q {'empty' if lq0 else 'present'}): returns {want.replace(q, 'q')}"
                               + ("" if drm else " - a symmetric permutation"), S.ret_node(), None if ok else {"got": _r(r, 400), "want": _r(S.root(want), 400)})
-    ctx.check(n == 8, "cbreorder: eight option combinations evaluated", fn, n, nontrivial=False)
+    if n == 8:
+        ctx.ok("cbreorder: eight option combinations evaluated", fn, n, nontrivial=False)
+    else:
+        ctx.error("cbreorder: not every one of the eight option combinations could be evaluated", fn, n)
 
 
 # ============================================================================================================ R4  _solve_eig
@@ -687,7 +715,7 @@ def r4_static_condensation(ctx):
         S.truth(f"(~{NZ}).any()", null_cols)
         mm = f"M0[np.ix_({NZ}, {NZ})]" if null_cols else "M0"
         S.truth(f"(~{mm}.any(axis=0)).any()", massless)
-        S.ev.run(fn.body)
+        S.go()
         return S
 
     def result(S, what):
@@ -723,7 +751,8 @@ def r4_static_condensation(ctx):
     ctx.check(ok, "_solve_eig: the reduced mass is the mass partition of the DOF that have mass", ns.node or fn, None if ok else _r(mred))
     ea = place(eig[1], eig[2], ["A", "k", "M"])
     ok = eq(ea.get("A"), kred) and eq(ea.get("M"), mred)
-    ctx.check(ok, "_solve_eig: the eigenproblem is solved for the reduced stiffness and the reduced mass", eig[3])
+    ctx.check(ok, "_solve_eig: the eigenproblem is solved for the reduced stiffness and the reduced mass", eig[3],
+              None if ok else {"A": _r(ea.get("A"), 200), "M": _r(ea.get("M"), 200), "k": _r(kred, 200), "m": _r(mred, 200)})
     vec = F.fn("eigvec", kred, mred) if ok and is_rat(kred) and is_rat(mred) else None
     cl = S.cells(vret)
     created = S.buf(vret) is not None and S.buf(vret).init is not None
@@ -808,7 +837,7 @@ def r5_cbcheck_quantities(ctx):
             return r
         if name == "cgmass" and pos and is_rat(pos[0]):
             return tuple(F.fn(f"cgmass{i}", pos[0]) for i in range(6))
-        if name == "np.sort" and pos and is_rat(pos[0]):
+        if name in ("np.sort", "sorted") and len(pos) == 1 and is_rat(pos[0]):
             return pos[0]           # the regime evaluated: the boundary set is given in ascending order
         return NotImplemented
 
@@ -820,8 +849,9 @@ def r5_cbcheck_quantities(ctx):
     S.truth("rb_norm is None", False)
     S.truth("rb_norm", False)
     S.sign("len(locate.flippv(bseto, np.size(Mcb, 0)))", "pos")
+    S.sign("np.size(Mcb, 0) - len(bseto)", "pos")          # the same regime stated on the sizes: there are modal DOF
     S.sign("em_filt", "zero")
-    S.ev.run(fn.body)
+    S.go()
     ret = S.ret()
     need_f = {"m", "k", "bset", "rbs", "rbg", "rbe", "effmass", "effmass_percent"}
     if not isinstance(ret, NS) or not need_f <= set(ret.fields) or any(not is_rat(ret.fields[k]) for k in need_f):
@@ -853,7 +883,8 @@ def r5_cbcheck_quantities(ctx):
     pf = [pf.get(nm) for nm in sig]           # (fout, k, m, bset, n_freefree_modes) by position: the names of a private function may change
     ff = S.ev._opaque("_solve_eig", ffs[0][1], ffs[0][2]) if len(ffs) == 1 else None
     ok = len(ffs) == 1 and len(pf) >= 4 and eq(pf[1], K) and eq(pf[2], M) and S.same(pf[3], "bseto") and is_rat(ff)
-    ctx.check(ok, "cbcheck: the free-free eigensolution is computed for the same stiffness, mass and boundary set", ffs[0][3] if ffs else fn)
+    ctx.check(ok, "cbcheck: the free-free eigensolution is computed for the same stiffness, mass and boundary set", ffs[0][3] if ffs else fn,
+              None if ok else [_r(x, 120) for x in pf[1:4]])
     if not ok:
         return
     V = F.fn("attr:v", ff)
@@ -861,7 +892,8 @@ def r5_cbcheck_quantities(ctx):
     ctx.check(ok, "cbcheck: rbe = V6 (V6[bref])^-1 - the six lowest free-free modes normalised to the identity at the reference DOF", ret.node or fn,
               None if ok else _r(rbe, 300))
     ok = eq(ret.fields["m"], M) and eq(ret.fields["k"], K) and S.same(ret.fields["bset"], "bseto")
-    ctx.check(ok, "cbcheck: the returned namespace publishes the mass, the stiffness and the boundary set the checks were made with", ret.node or fn)
+    ctx.check(ok, "cbcheck: the returned namespace publishes the mass, the stiffness and the boundary set the checks were made with", ret.node or fn,
+              None if ok else [_r(ret.fields[k_], 120) for k_ in ("m", "k", "bset")])
     sets = {"stiffness": rbs, "geometry": rbg, "eigensolution": rbe}
     mat = {"stiffness": (M, K), "geometry": (Mbb, Kbb), "eigensolution": (M, K)}
     mass = {lab: sets[lab] * mat[lab][0] * sets[lab] for lab in sets}
@@ -1044,7 +1076,7 @@ def r6_coordchk(ctx):
         S.truth("verbose", False)
         S.truth("rb_normalizer is None", True)
         S.sign("np.size(K, 0) - len(bset)", "pos")
-        S.ev.run(fn.body)
+        S.go()
         return S
 
     def unwrap(S, what):
@@ -1070,11 +1102,12 @@ def r6_coordchk(ctx):
         sc = split_call(eye) if is_rat(eye) else None
         ok = sc is not None and sc[0] in ("np.eye", "np.identity") and sc[1] and eq(sc[1][0], F.const(6))
         _chk(ctx, S, ok, f"_cbcoordchk ({what}): the rigid-body modes are the identity at the six reference DOF", fn,
-             None if ok else {"stores": [(_r(i, 100), _r(v, 100)) for i, v, _ in S.cells(R)]}, arrays=[R])
+             None if ok else {"stores": [(_r(i, 100), _r(v, 100)) for i, v, _ in S.cells(R)]}, arrays=[R], known=[(R, [ref, o])])
         want = -S.root("__k[np.ix_(__o, __r)]", __k=kb, __o=o, __r=ref) / S.root("__k[np.ix_(__o, __o)]", __k=kb, __o=o)
         ok = eq(oth, want) and len(S.cells(R)) == 2 and b is not None and is_rat(b.init) and b.init.is_zero()
         _chk(ctx, S, ok, f"_cbcoordchk ({what}): at the other boundary DOF the modes are -Koo^-1 Kor (Koo x_o + Kor x_r = 0 with the partitions of the same boundary "
-                         "stiffness, o the complement of the reference DOF)", fn, None if ok else {"got": _r(oth, 300), "want": _r(want, 300)}, arrays=[R])
+                         "stiffness, o the complement of the reference DOF)", fn, None if ok else {"got": _r(oth, 300), "want": _r(want, 300)}, arrays=[R],
+             known=[(R, [ref, o])])
 
     # ---- every boundary DOF has stiffness
     S = run(False)
@@ -1103,6 +1136,8 @@ def r6_coordchk(ctx):
         ctx.error("_cbcoordchk (null boundary DOF): the store of the identity at the reference DOF was not found", fn, [(_r(i, 100), _r(v, 100)) for i, v, _ in cr])
         return
     new = refs[0]
+    if cs._is_mask(new):
+        new = F.fn("nonzero0", new)          # a store index is recorded as the mask; everywhere else the code holds the positions of that mask
     old = S.root("refpoint - np.min(bset)")
     modes(S, R, new, k1, S.root("__k.shape[0]", __k=k1), "null boundary DOF")
     # ---- the renumbering of the reference DOF
@@ -1174,6 +1209,9 @@ def _concrete(S, v, world, depth=0):
     if u is None:
         return None
     nm, args = u
+    if nm == "dim" and len(args) == 2 and eq(args[1], F.const(0)):
+        x = _concrete(S, args[0], world, depth + 1)
+        return len(x) if isinstance(x, tuple) else None
     if nm == "arange0" and len(args) == 1:
         k = _concrete(S, args[0], world, depth + 1)
         return tuple(range(k)) if isinstance(k, int) and 0 <= k <= 64 else None
@@ -1183,8 +1221,8 @@ def _concrete(S, v, world, depth=0):
             return tuple(x[k] for k in i_)
         return None
     sc = split_call(v)
-    if sc is None or sc[2]:
-        return None
+    if sc is None or (set(sc[2]) - {"kind"}):
+        return None          # the sorting algorithm does not matter: the worlds hold distinct values
     xs = [_concrete(S, a, world, depth + 1) for a in sc[1]]
     if sc[0] in ("np.argsort", ".argsort") and len(xs) == 1 and isinstance(xs[0], tuple):
         return tuple(sorted(range(len(xs[0])), key=lambda k: (xs[0][k], k)))
@@ -1221,8 +1259,9 @@ def r7_reorder_geometry(ctx):
     S.truth("rb_norm is None", False)
     S.truth("rb_norm", False)
     S.sign("len(locate.flippv(bseto, np.size(Mcb, 0)))", "pos")
+    S.sign("np.size(Mcb, 0) - len(bseto)", "pos")
     S.sign("em_filt", "zero")
-    S.ev.run(fn.body)
+    S.go()
     ffs = S.calls("_solve_eig")
     geo = S.calls("n2p.rbgeom_uset")
     if len(ffs) != 1 or len(geo) != 1:
